@@ -246,17 +246,18 @@ let rec take n l = if n <= 0 then [] else match l with [] -> [] | x :: r -> x ::
 let rec drop n l = if n <= 0 then l else match l with [] -> [] | _ :: r -> drop (n - 1) r
 let set_at j v l = List.mapi (fun p x -> if p = j then v else x) l
 
-let run_succ synthetic a =
+let rec run_succ synthetic a = run_succ_q synthetic 0 a
+and run_succ_q synthetic q a =
   let oldc = zs (List.nth a 0) and nn = int_of_string (List.nth a 1) in
   let tweak = List.nth a 2 in
   let arg = if List.length a > 3 then List.nth a 3 else "0" in
   try
     let old =
       if synthetic then
-        (oldc, List.init (ZZ.to_int (num_peaks oldc)) (fun j -> atom (zi (1000000 + j))))
+        (oldc, List.init (ZZ.to_int (num_peaks oldc)) (fun j -> atom (zi (1000000 + (if q > 0 then j mod q else j)))))
       else get (new_from_leafs h (List.init (ZZ.to_int oldc) (fun j -> atom (zi j)))) in
     let base = if synthetic then 0 else ZZ.to_int oldc in
-    let new_leafs = List.init nn (fun j -> atom (zi (base + j))) in
+    let new_leafs = List.init nn (fun j -> if q > 0 then atom (zi (1000000 + (j + 1) mod q)) else atom (zi (base + j))) in
     let sp = get (sp_new_from_batch_append h dflt old new_leafs) in
     let nw = List.fold_left (fun acc l -> fst (get (acc_append h acc l))) old new_leafs in
     let bad = atom (zi 777777) in
@@ -441,6 +442,9 @@ let run op a =
   | "vfy" -> run_vfy a
   | "succ" -> run_succ false a
   | "succs" -> run_succ true a
+  | "succq1" -> run_succ_q true 1 a
+  | "succq2" -> run_succ_q true 2 a
+  | "succq3" -> run_succ_q true 3 a
   | "syn" -> run_syn a
   | _ -> "UNKNOWN-OP"
 
